@@ -3,11 +3,15 @@ from driver import Unit
 NAMES = {0: "int", 1: "pod", 2: "tcm", 3: "tmo", 4: "il"}
 
 
-def u(elem, tag, caps, quick=True, nocc=False):
+def u(elem, tag, caps, quick=True, nocc=False, nx=False):
     fl_t = ["asan-cc", "asan-nocc"] if nocc else ["asan-cc"]
+    fl_q = ["asan-cc"]
+    if nx:  # once more without exception support (-fno-exceptions): the other branch of tetl's uninitialized_copy/move/fill
+        fl_t = fl_t + ["asannx-cc"]
+        fl_q = fl_q + ["asannx-cc"]
     return Unit(f"C01_{NAMES[elem]}_{tag}", "harness/C01_vector.cpp",
                 defs=[f"-DVF_ELEM={elem}", f"-DVF_CAPS={caps}"],
-                flavours={"quick": ["asan-cc"] if quick else [], "thorough": fl_t},
+                flavours={"quick": fl_q if quick else [], "thorough": fl_t},
                 shards={"quick": 4, "thorough": 16})
 
 
@@ -31,8 +35,8 @@ P = dict(
     units=[
         u(0, "a", "0,1,2,3", nocc=True), u(0, "b", "16,254,255,256"), u(0, "c", "4", quick=False),
         u(1, "a", "0,1,3"), u(1, "b", "4,16,255", quick=False),
-        u(2, "a", "0,1,2,3", nocc=True), u(2, "b", "16,254,255,256"), u(2, "c", "4", quick=False),
-        u(3, "a", "0,1,2,3"), u(3, "b", "4,16,255,256", quick=False),
+        u(2, "a", "0,1,2,3", nocc=True, nx=True), u(2, "b", "16,254,255,256"), u(2, "c", "4", quick=False),
+        u(3, "a", "0,1,2,3", nx=True), u(3, "b", "4,16,255,256", quick=False),
         u(4, "a", "0,1,2,3"), u(4, "b", "4,16,256", quick=False),
     ],
     floor={"quick": 100000, "thorough": 1000000},
